@@ -96,6 +96,54 @@ def execute(beh):
     return events
 
 
+def execute_objs(beh):
+    """Two equations and a pool of Term objects: 'new' creates a Term object and adds that object, 're' adds an
+    already existing object again (to the same or to the other equation), 'str' adds the text."""
+    from sfc_models.equation import Equation, Term
+    eqs = {1: Equation('lhs1', 'd', rhs=()), 2: Equation('lhs2', 'd', rhs=())}
+    pool = []
+    events = []
+    for op in beh['ops']:
+        ev = {'ev': 'ObjOp', 'op': op}
+        try:
+            if op['kind'] == 'str':
+                eqs[op['eq']].AddTerm(form_text(op['form']))
+            elif op['kind'] == 'new':
+                t = Term(form_text(op['form']))
+                pool.append(t)
+                eqs[op['eq']].AddTerm(t)
+            else:
+                eqs[op['eq']].AddTerm(pool[op['idx'] - 1])
+            o1, o2 = observe(eqs[1]), observe(eqs[2])
+            ev.update(ok=bool(o1['ok'] and o2['ok']), vals1=o1['vals'], vals2=o2['vals'], text1=o1['text'], text2=o2['text'])
+        except Exception as e:
+            ev.update(ok=False, vals1=[0, 0], vals2=[0, 0], text1='EXC ' + type(e).__name__, text2='')
+        events.append(ev)
+    return events
+
+
+def judge_objs(rep, behs):
+    traces = []
+    for i, b in enumerate(behs):
+        traces.append((i, execute_objs(b)))
+        rep.add_case({'behaviour': b, 'observed': traces[-1][1]} if i < 2 else b, True)
+    verdicts, st, tr = core.validate_traces('MC_EquationObj_Trace', 'MC_EquationObj_Trace.cfg', traces, tag='c12o')
+    rep.traces += len(traces)
+    rep.extra['trace_validation_states'] = rep.extra.get('trace_validation_states', 0) + st
+    for i, b in enumerate(behs):
+        v = verdicts[i]
+        if v == 'ok:':
+            continue
+        kind, clause = v.split(':', 1)
+        if kind == 'property':
+            kinds = [op['kind'] for op in b['ops']]
+            sig = 'term-object-reused' if 're' in kinds else ('term-object-added' if 'new' in kinds else 'strings-two-equations')
+            rep.violate(clause, sig, {'behaviour': b, 'observed': traces[i][1], 'objects': True},
+                        detail='observed %s' % json.dumps(traces[i][1])[:300])
+        else:
+            rep.add_drift(clause, {'behaviour': b})
+
+
 def signature(clause, beh):
     if beh['mode'] == 'join':
         l = beh['join']
@@ -161,6 +209,16 @@ def run(rep):
         if not behs:
             raise core.MachineryError('TLC emitted no behaviours for ' + cfg)
         judge(rep, behs)
+    # Term objects (identity): two equations sharing caller-created Term objects
+    ocfg = 'MC_EquationObj_quick.cfg' if rep.tier == 'quick' else 'MC_EquationObj_thorough.cfg'
+    res = core.tlc('MC_EquationObj', ocfg, workers=1 if rep.tier == 'quick' else 4, tag='c12o')
+    if res.violated:
+        raise core.MachineryError('spec invariant %s violated in %s' % (res.violated, ocfg))
+    rep.add_tlc(res, 'exhaustive ' + ocfg)
+    obehs = core.json_of_printed(res, 'BEH')
+    if not obehs:
+        raise core.MachineryError('TLC emitted no behaviours for ' + ocfg)
+    judge_objs(rep, obehs)
 
 
 def replay(path):
@@ -168,8 +226,12 @@ def replay(path):
         data = json.load(f)
     beh = data['case']['behaviour']
     rep = core.Report('C12', 'quick', 0)
-    judge(rep, [beh])
-    print(json.dumps({'behaviour': beh, 'observed_now': execute(beh)}, indent=1))
+    if data['case'].get('objects'):
+        judge_objs(rep, [beh])
+        print(json.dumps({'behaviour': beh, 'observed_now': execute_objs(beh)}, indent=1))
+    else:
+        judge(rep, [beh])
+        print(json.dumps({'behaviour': beh, 'observed_now': execute(beh)}, indent=1))
     for v in rep.violations:
         print('VIOLATION property=C12 replay=%s' % path)
         print('  clause=%s signature=%s' % (v.clause, v.signature))
